@@ -1379,8 +1379,10 @@ fn run_case(seed: u64, thorough: bool, root: &Path, t: &mut Trace, ctr: &mut Cou
 					stale_seen[c] = true;
 					walk_fails[c] = walk_err.is_some();
 				}
-				let sig = if let Some(e) = walk_err.as_ref() {
+				let sig = if let (Some(e), true) = (walk_err.as_ref(), case.scenario == "stale") {
 					format!("STALE-ENTRY-signature: the index walk `migrate` relies on fails with {} on a source every key of which reads correctly", e)
+				} else if let Some(e) = walk_err.as_ref() {
+					format!("the index walk `migrate` relies on fails with {} (no stale entry was provoked in this scenario)", e)
 				} else if case.scenario == "stale" && extra > 0 {
 					"STALE-ENTRY-signature: the index walk reports a key that was never written (entry of a removed key in a queued older table, slot taken by another key)".to_string()
 				} else if !queued_older[c].is_empty() && missing > 0 {
